@@ -28,9 +28,15 @@ pub struct AckWorld {
     pub arrived: Vec<bool>,
     pub allow_rearrival: bool,
     pub received: BTreeSet<u64>,
+    /// lower bound of the recorded set: an ack of an ack packet trims everything up to the largest sequence that
+    /// packet acknowledged (the original's policy; nothing sensible trims more)
     pub model_pending: BTreeSet<u64>,
-    /// (sequence of the ack packet we emitted, largest sequence it acknowledged)
-    pub outstanding: Vec<(u64, u64)>,
+    /// upper bound of the recorded set: an ack of an ack packet trims exactly the sequences that packet carried
+    pub model_upper: BTreeSet<u64>,
+    /// the 64-range limit may have dropped ranges (then only the upper bound is compared)
+    pub cap_hit: bool,
+    /// (sequence of the ack packet we emitted, largest sequence it acknowledged, the ranges it carried)
+    pub outstanding: Vec<(u64, u64, Vec<(u64, u64)>)>,
     pub next_peer_seq: u64,
     pub max_outstanding: usize,
     pub flags: u64,
@@ -86,6 +92,8 @@ impl AckWorld {
             allow_rearrival: false,
             received: BTreeSet::new(),
             model_pending: BTreeSet::new(),
+            model_upper: BTreeSet::new(),
+            cap_hit: false,
             outstanding: vec![],
             next_peer_seq: 1 << 20,
             max_outstanding: 2,
@@ -105,6 +113,10 @@ impl AckWorld {
         self.received.insert(seq);
         self.model_pending.insert(seq);
         cap_model(&mut self.model_pending);
+        self.model_upper.insert(seq);
+        if ranges_of(&self.model_upper).len() > 64 {
+            self.cap_hit = true;
+        }
         self.check_state()
     }
 
@@ -131,7 +143,7 @@ impl AckWorld {
         // how often an ack packet is emitted is not part of any statement (an implementation may pace them):
         // look at the first one that comes out within a few flushes
         for _ in 0..3 {
-            if !pk.is_empty() || self.model_pending.is_empty() || c.disconnect_reason().is_some() {
+            if !pk.is_empty() || self.model_upper.is_empty() || c.disconnect_reason().is_some() {
                 break;
             }
             pk = guard("get_packets_to_send", || c.get_packets_to_send())?;
@@ -145,7 +157,7 @@ impl AckWorld {
         if c.disconnect_reason().is_some() {
             return Ok(());
         }
-        if self.model_pending.is_empty() {
+        if self.model_upper.is_empty() {
             if !pk.is_empty() && self.oracles & O_EQUAL != 0 {
                 return Err(Violation::new("ACK/ack-for-empty-set", format!("{} packets emitted with nothing to acknowledge", pk.len())));
             }
@@ -183,18 +195,44 @@ impl AckWorld {
                 }
             }
         }
-        let want = ranges_of(&self.model_pending);
+        // the packet denotes exactly what the endpoint has recorded (its newest 64 ranges) ...
+        let recorded: Vec<(u64, u64)> = pa.iter().map(|r| (r.start, r.end)).collect();
+        let want: Vec<(u64, u64)> = recorded[recorded.len().saturating_sub(64)..].to_vec();
         if self.oracles & O_EQUAL != 0 && ranges != want {
             return Err(Violation::new(
                 "ACK/ack-packet-differs-from-recorded-set",
                 format!(
-                    "ack packet denotes {} ranges {:?}..., the reference set (newest 64 ranges of what arrived, minus what acks of acks trimmed) has {} ranges {:?}...",
+                    "ack packet denotes {} ranges {:?}..., the endpoint has recorded {} ranges, the newest 64 of which are {:?}...",
                     ranges.len(),
                     &ranges[..ranges.len().min(6)],
-                    want.len(),
+                    recorded.len(),
                     &want[..want.len().min(6)]
                 ),
             ));
+        }
+        // ... and the record itself lies between two reference sets: everything that arrived minus exactly what confirmed
+        // ack packets carried (upper), and minus everything up to the largest sequence a confirmed ack packet carried (lower)
+        if self.oracles & O_EQUAL != 0 {
+            let mut rec = BTreeSet::new();
+            for (s, e) in &recorded {
+                for x in *s..*e {
+                    rec.insert(x);
+                }
+            }
+            if let Some(x) = rec.iter().find(|x| !self.model_upper.contains(x)) {
+                return Err(Violation::new(
+                    "ACK/ack-packet-differs-from-recorded-set",
+                    format!("the recorded set holds {} which never arrived or was confirmed as acknowledged; recorded {:?}..., reference (upper) {:?}...", x, &recorded[..recorded.len().min(6)], &ranges_of(&self.model_upper)[..ranges_of(&self.model_upper).len().min(6)]),
+                ));
+            }
+            if !self.cap_hit {
+                if let Some(x) = self.model_pending.iter().find(|x| !rec.contains(x)) {
+                    return Err(Violation::new(
+                        "ACK/ack-packet-differs-from-recorded-set",
+                        format!("sequence {} arrived, lies above everything a confirmed ack packet carried, and is missing from the recorded set {:?}...", x, &recorded[..recorded.len().min(6)]),
+                    ));
+                }
+            }
         }
         Ok(())
     }
@@ -210,10 +248,10 @@ impl World for AckWorld {
                 v.push(Act::Arrive(s));
             }
         }
-        if !self.model_pending.is_empty() && self.outstanding.len() < self.max_outstanding {
+        if !self.model_upper.is_empty() && self.outstanding.len() < self.max_outstanding {
             v.push(Act::Flush);
         }
-        for (q, _) in &self.outstanding {
+        for (q, _, _) in &self.outstanding {
             v.push(Act::AckOf(*q));
         }
         v
@@ -237,15 +275,15 @@ impl World for AckWorld {
                     let (seq, info, _) = decode(&p);
                     if let PktInfo::Ack { ranges } = info {
                         let largest = ranges.last().map(|r| r.1 - 1).unwrap_or(0);
-                        self.outstanding.push((seq, largest));
+                        self.outstanding.push((seq, largest, ranges.clone()));
                     }
                 }
                 self.flags |= 1;
                 self.check_state()
             }
             Act::AckOf(q) => {
-                let Some(pos) = self.outstanding.iter().position(|(s, _)| s == q) else { return Ok(()) };
-                let (_, largest) = self.outstanding.remove(pos);
+                let Some(pos) = self.outstanding.iter().position(|(s, _, _)| s == q) else { return Ok(()) };
+                let (_, largest, carried) = self.outstanding.remove(pos);
                 let seq = self.next_peer_seq;
                 self.next_peer_seq += 2; // peer ack packets are never adjacent to each other
                 let bytes = encode(&Packet::Ack {
@@ -258,6 +296,11 @@ impl World for AckWorld {
                 self.model_pending.insert(seq);
                 cap_model(&mut self.model_pending);
                 self.model_pending.retain(|s| *s > largest);
+                self.model_upper.insert(seq);
+                self.model_upper.retain(|s| !carried.iter().any(|(a, b)| *s >= *a && *s < *b));
+                if ranges_of(&self.model_upper).len() > 64 {
+                    self.cap_hit = true;
+                }
                 self.flags |= 2;
                 self.check_state()
             }
@@ -269,7 +312,7 @@ impl World for AckWorld {
         let mut h = std::collections::hash_map::DefaultHasher::new();
         hash_conn(&snap, &mut h);
         use std::hash::Hasher;
-        h128(&(h.finish(), &self.arrived, &self.model_pending, &self.outstanding, self.next_peer_seq))
+        h128(&(h.finish(), &self.arrived, &self.model_pending, &self.model_upper, self.cap_hit, &self.outstanding, self.next_peer_seq))
     }
 
     fn flags(&self) -> u64 {
